@@ -194,7 +194,7 @@ package raft
 //@   ensures [AE.commit-monotone] r.commitIndex >= old(r.commitIndex)
 //@   ensures [AE.commit-bound] err == nil ==> r.commitIndex <= max(old(r.commitIndex), P + n) && r.commitIndex <= max(old(r.commitIndex), request.LeaderCommit)
 //@   ensures [AE.term-reply] err == nil ==> response.Term == r.currentTerm && r.currentTerm >= old(r.currentTerm)
-//@   ensures [AE.contact] err == nil && request.Term >= old(r.currentTerm) ==> r.lastContact >= old(r.lastContact) && r.leaderID == request.LeaderID
+//@   ensures [AE.contact] err == nil && request.Term >= old(r.currentTerm) ==> r.lastContact >= old(now) && r.leaderID == request.LeaderID
 //@   loop range request.Entries invariant [skipped] forall j int :: 0 <= j && j < i ==> P+1+j <= Llast && Lterm[P+1+j] == E[j].Term
 //@   loop for index invariant [hint] r.lastIncludedIndex <= index && index < P
 
@@ -388,6 +388,7 @@ package raft
 //@   requires r.operationManager.leaderLease != nil
 //@   requires forall id string :: id in r.followers ==> r.followers[id] != nil
 //@   requires persTerm == r.currentTerm && persVote == r.votedFor && 0 <= Lfirst && Lfirst <= Llast && r.lastContact <= now && r.state <= Shutdown
+//@   requires r.state != Shutdown ==> logOpen
 //@   ensures [voter-only] !old(r.configuration.IsVoter[r.id]) ==> r.state == old(r.state) && r.currentTerm == old(r.currentTerm) && r.votedFor == old(r.votedFor)
 //@   ensures [quiet] now - old(r.lastContact) < r.options.electionTimeout ==> r.state == old(r.state) && r.currentTerm == old(r.currentTerm) && r.votedFor == old(r.votedFor)
 //@   ensures [leader-keeps] old(r.state) == Leader || old(r.state) == Shutdown ==> r.state == old(r.state) && r.currentTerm == old(r.currentTerm)
@@ -412,6 +413,7 @@ package raft
 //@ func Raft.becomeLeader
 //@   flags lockheld
 //@   requires [pre-nonnil] r.configuration != nil && r.followers != nil && r.log != nil && r.operationManager != nil && r.logger != nil
+//@   requires [pre-open] logOpen
 //@   requires [pre-I6b] forall id string :: id in r.followers ==> r.followers[id] != nil
 //@   ensures [state] r.state == Leader && r.currentTerm == old(r.currentTerm) && r.votedFor == old(r.votedFor)
 //@   ensures [noop] Llast == old(Llast) + 1 && Lterm[Llast] == r.currentTerm && Ltyp[Llast] == NoOpEntry && forall i int :: i <= old(Llast) ==> Lterm[i] == old(Lterm[i]) && Ltyp[i] == old(Ltyp[i]) && Ldata[i] == old(Ldata[i])
@@ -505,6 +507,7 @@ package raft
 //@ func Raft.committedThisTerm
 //@   flags lockheld
 //@   requires r.log != nil && r.logger != nil
+//@   requires [pre-open] logOpen
 //@   ensures [spec] result == committedThisTermSpec(r)
 
 //@ func lease.renew
@@ -568,6 +571,7 @@ package raft
 //@ func Raft.appendConfiguration
 //@   flags lockheld
 //@   requires [pre-nonnil] configuration != nil && r.log != nil && r.transport != nil && r.logger != nil
+//@   requires [pre-open] logOpen
 //@   ensures [frame] forall c *Configuration :: c != configuration ==> c.Index == old(c.Index)
 //@   ensures [entry] Llast == old(Llast) + 1 && configuration.Index == Llast && Lterm[Llast] == r.currentTerm && Ltyp[Llast] == ConfigurationEntry && forall i int :: i <= old(Llast) ==> Lterm[i] == old(Lterm[i]) && Ltyp[i] == old(Ltyp[i]) && Ldata[i] == old(Ldata[i])
 
